@@ -82,10 +82,17 @@ fn mk(name: String, cap: Cap, class: Class, ctor: Flavour, via: Conv, threads: V
 /// non-initial channel state: values buffered, the lazily flipped wait-list
 /// kind, a cancelled waiter ...)
 fn with_prefix(ps: Vec<Program>, prefix: &[Op], tagname: &str) -> Vec<Program> {
+    with_prefix_suffix(ps, prefix, &[], tagname)
+}
+
+/// ... and `suffix` appended to thread 0 (e.g. a last poll of a future the
+/// prefix left pending, so that what it obtained is observed)
+fn with_prefix_suffix(ps: Vec<Program>, prefix: &[Op], suffix: &[Op], tagname: &str) -> Vec<Program> {
     ps.into_iter()
         .filter_map(|mut p| {
             let mut ops = prefix.to_vec();
             ops.extend(p.threads[0].ops.iter().copied());
+            ops.extend(suffix.iter().copied());
             if !well_formed(&ops) {
                 return None;
             }
@@ -109,6 +116,50 @@ fn with_prefix(ps: Vec<Program>, prefix: &[Op], tagname: &str) -> Vec<Program> {
             }
         })
         .collect()
+}
+
+/// The single-op pairs of a medium alphabet started from a standard set of
+/// non-initial channel states (built by thread 0 alone before the other thread
+/// starts): values buffered, the wait-list kind flag flipped by an earlier
+/// receive, cancelled waiters left behind, one or two receivers / a sender
+/// still pending (their futures are polled once more at the end).
+fn states_family(prefix: &str, class: Class, caps: &[Cap], envs: &[Env], full: bool) -> Vec<Program> {
+    let sends: Vec<Op> = if full {
+        vec![Op::Send, Op::TrySend, Op::TrySendO, Op::SendT(1), Op::SendOT(1), Op::SendRepoll, Op::Close(Side::S)]
+    } else {
+        vec![Op::Send, Op::TrySend, Op::SendT(1), Op::Close(Side::S)]
+    };
+    let recvs: Vec<Op> = if full {
+        vec![Op::Recv, Op::TryRecv, Op::TryRecvRt, Op::RecvT(1), Op::Drain(VecState::Spare), Op::Next, Op::RecvRepoll, Op::Close(Side::R)]
+    } else {
+        vec![Op::Recv, Op::TryRecv, Op::RecvT(1), Op::Drain(VecState::Spare), Op::Close(Side::R)]
+    };
+    let base = product(
+        prefix,
+        &[seqs(&sends, 1), seqs(&recvs, 1)],
+        caps,
+        &[class],
+        &sync_only(2),
+        &[(S, Conv::Clone)],
+        envs,
+        false,
+    );
+    let states: Vec<(&str, Vec<Op>, Vec<Op>)> = vec![
+        ("send", vec![Op::TrySend], vec![]),
+        ("send,recv", vec![Op::TrySend, Op::TryRecv], vec![]),
+        ("2send,recv", vec![Op::TrySend, Op::TrySend, Op::TryRecv], vec![]),
+        ("cancelled-recv", vec![Op::FRecv(3), Op::Poll(3, 0), Op::FDrop(3)], vec![]),
+        ("cancelled-send", vec![Op::TrySend, Op::TrySend, Op::FSend(3), Op::Poll(3, 0), Op::FDrop(3), Op::TryRecv], vec![]),
+        ("pending-recv", vec![Op::FRecv(3), Op::Poll(3, 0)], vec![Op::Poll(3, 0)]),
+        ("2pending-recv", vec![Op::FRecv(3), Op::Poll(3, 0), Op::FRecv(2), Op::Poll(2, 1)], vec![Op::Poll(3, 0), Op::Poll(2, 1)]),
+        ("full+pending-send", vec![Op::TrySend, Op::TrySend, Op::FSend(3), Op::Poll(3, 0)], vec![Op::Poll(3, 0)]),
+        ("full+2pending-send", vec![Op::TrySend, Op::FSend(3), Op::Poll(3, 0), Op::FSend(2), Op::Poll(2, 1)], vec![Op::Poll(3, 0), Op::Poll(2, 1)]),
+    ];
+    let mut out = Vec::new();
+    for (name, pre, suf) in states {
+        out.extend(with_prefix_suffix(base.clone(), &pre, &suf, name));
+    }
+    out
 }
 
 fn opname(o: &Op) -> String {
@@ -584,6 +635,12 @@ fn c01(thorough: bool) -> Suite {
             &[env(2, 1, None, Some(3))],
         ));
     }
+    if thorough {
+        ps.extend(states_family("c01-states", Class::DL, &[Cap::B(0), Cap::B(1), Cap::B(2)], &[env(2, 1, None, Some(4))], true));
+        ps.extend(states_family("c01-states", Class::DP, &[Cap::B(1)], &[env(2, 1, None, Some(4))], false));
+    } else {
+        ps.extend(states_family("c01-states", Class::DL, &[Cap::B(1), Cap::B(2)], &[env(2, 1, None, Some(3))], false));
+    }
     // a value handed into a future / stream wait that is then dropped, never
     // polled again, or polled late
     ps.extend(product(
@@ -804,30 +861,13 @@ fn c03(thorough: bool) -> Suite {
         &sync_only(2),
         &[env(2, 1, None, pb2(thorough))],
     ));
-    // the same single-op pairs started from non-initial states: a value
-    // already buffered, the wait-list kind flag flipped by an earlier receive,
-    // a cancelled receiver / sender left behind
-    {
-        let base = core2(
-            "c03-pre",
-            &[Op::Send, Op::TrySend, Op::TrySendO, Op::TrySendRt, Op::SendT(0), Op::Close(Side::S)],
-            &[Op::Recv, Op::TryRecv, Op::TryRecvRt, Op::RecvT(0), Op::Drain(VecState::Spare), Op::Next, Op::Close(Side::R)],
-            1,
-            1,
-            &[Cap::B(1), Cap::B(2), Cap::Unbounded],
-            &[Class::P],
-            &sync_only(2),
-            &[env(2, 1, None, UNB)],
-        );
-        for (name, pre) in [
-            ("send", vec![Op::TrySend]),
-            ("send,recv", vec![Op::TrySend, Op::TryRecv]),
-            ("cancelled-recv", vec![Op::FRecv(0), Op::Poll(0, 0), Op::FDrop(0)]),
-            ("cancelled-send", vec![Op::TrySend, Op::TrySend, Op::FSend(0), Op::Poll(0, 0), Op::FDrop(0), Op::TryRecv]),
-        ] {
-            ps.extend(with_prefix(base.clone(), &pre, name));
-        }
-    }
+    ps.extend(states_family(
+        "c03-states",
+        Class::P,
+        &[Cap::B(0), Cap::B(1), Cap::B(2)],
+        &[env(2, 1, None, if thorough { UNB } else { Some(4) })],
+        thorough,
+    ));
     ps.extend(three_sends("c03-3sends", thorough, Class::P));
     // two pending operations of one thread (their order in the wait list is
     // fixed) served by the other thread
@@ -973,6 +1013,13 @@ fn c05(thorough: bool) -> Suite {
         &[(S, Conv::Clone)],
         &[env(2, 1, None, UNB)],
         false,
+    ));
+    ps.extend(states_family(
+        "c05-states",
+        Class::DP,
+        &[Cap::B(1), Cap::B(2)],
+        &[env(2, 1, None, Some(if thorough { 4 } else { 3 }))],
+        thorough,
     ));
     ps.extend(product(
         "c05-futr",
@@ -1490,6 +1537,7 @@ fn c08(thorough: bool) -> Suite {
         true,
     ));
     ps.extend(three_sends("c08-3sends", thorough, Class::P));
+    ps.extend(states_family("c08-states", Class::P, &[Cap::B(0), Cap::B(1), Cap::B(2)], &[env(2, 1, None, Some(4))], thorough));
     // zero-sized messages: the buffer's allocation is unbounded for them, only
     // the channel's own capacity holds the sender back
     ps.extend(product(
